@@ -124,6 +124,25 @@ fn one_provider(out: &mut Out, r: &mut Rng, kind: Kind, seed_len: usize, thoroug
             dec_case(out, "ok", "bit", &b);
         }
     }
+    // the four header bytes (two little-endian u16 length fields) at boundary values, alone and in pairs: lengths
+    // whose sum leaves the u16 range, the blob length, zero (seeded change C14-r8: `dek_len + nonce_len` added as u16)
+    for i in 0..4usize.min(blob.len()) {
+        for v in [0u8, 1, 0x7f, 0x80, 0xf0, 0xfc, 0xfe, 0xff] {
+            let mut b = blob.clone();
+            b[i] = v;
+            dec_case(out, "ok", "hdr", &b);
+        }
+    }
+    if blob.len() >= 4 {
+        for (a, c) in [(0xffu8, 0xffu8), (0xff, 0x00), (0x00, 0xff), (0x80, 0x80), (0xff, 0x01)] {
+            let mut b = blob.clone();
+            b[1] = a; b[3] = c;
+            dec_case(out, "ok", "hdr", &b);
+            let mut b = blob.clone();
+            b[0] = 0xff; b[1] = a; b[2] = 0xff; b[3] = c;
+            dec_case(out, "ok", "hdr", &b);
+        }
+    }
     // every truncation length, extensions by 1..=32 bytes
     for l in 0..blob.len() {
         dec_case(out, "ok", "trunc", &blob[..l]);
